@@ -7,8 +7,9 @@ LAST_UNSUP = set()
 IMPORTS = "From YQ Require Import Base.Str Model.Node Model.Store Model.Eval."
 
 
-def impl_eval(cases):
-    reqs = [{"op": "eval", "expr": evalgen.render(e) if not isinstance(e, str) else e, "input": json.dumps(d), "in": "json", "out": "json", "indent": 0}
+def impl_eval(cases, fmt="json"):
+    """fmt="yaml": the same JSON text read by the YAML decoder (nodes then carry line numbers, as for any .yaml file)"""
+    reqs = [{"op": "eval", "expr": evalgen.render(e) if not isinstance(e, str) else e, "input": json.dumps(d), "in": fmt, "out": "json", "indent": 0}
             for e, d in cases]
     return [evalgen.canon_impl(r) for r in vlib.yqh_parallel(reqs)]
 
